@@ -173,7 +173,7 @@ def run(ctx):
                             "c16_delete_undone_refuted", "c16_publication_safe", "c16_split_unseal_refuted",
                             "c16_u2f_once_at_storage_granularity", "c16_u2f_double_spend_refuted", "c16_ssegments_are_runs",
                             "c16_no_write_after_answer", "c16_respond_is_last", "c16_abandoned_write_refuted",
-                            "c16_oauth_pool_disciplined", "c16_lock_copy_refuted"])
+                            "c16_oauth_pool_disciplined", "c16_lock_copy_refuted", "c16_blocked_only_by_running_request"])
     gen = ctx.extract()
     files = ["kmd/common.go", "kmd/creds.go", "kmd/c16.go", "kmd/c16_stall.go", os.path.join(ctx.work, "gen", "mux_gen.go")]
     overlay, counts = instrument(ctx)
